@@ -621,3 +621,29 @@ Definition check_C13 := check_with mon_C13.
 Definition mon_all (sc : scenario) (c0 : cluster) (out : outcome) : list bool :=
   [mon_C01 sc c0 out; mon_C02 sc c0 out; mon_C03 sc c0 out; mon_C04 sc c0 out; mon_C05 sc c0 out;
    mon_C10 sc c0 out; mon_C11 sc c0 out; mon_C12 sc c0 out; mon_C13 sc c0 out; mon_C04_obs sc c0 out].
+
+(* ---- boolean well-formedness of a scenario / initial cluster ------------------ *)
+(* The hypothesis WF of Proofs/PipelineOrphansRun.v as an executable predicate (reflection lemmas
+   wf_fin_b_spec / wf_b_spec there), so that harnesses and fuzzers can evaluate it on generated cases.
+   fin_obs_ok: a status delivery does not lie about an object held by a finalizer (never NotFound,
+   no UID other than the one the object has in the cluster). *)
+Definition fin_obs_ok (sc : scenario) (c0 : cluster) (o : sobs) : bool :=
+  negb (u_fin (uinfo_of sc (s_id o))) ||
+  (negb (kst_eqb (s_st o) SNotFound) &&
+   (negb (s_body o) || N.eqb (s_uid o) 0 ||
+    forallb (fun c => negb (Nat.eqb (c_id c) (s_id o)) || N.eqb (s_uid o) (c_uid c)) (objs c0))).
+Definition wf_fin_b (sc : scenario) (c0 : cluster) : bool :=
+  forallb (fun w => forallb (fin_obs_ok sc c0) (w_deliv w)) (e_waits (sc_env sc)).
+Fixpoint nodupb (l : list nat) : bool :=
+  match l with [] => true | x :: t => negb (memn x t) && nodupb t end.
+Definition wf_b (sc : scenario) (c0 : cluster) : bool :=
+  (o_destroy (sc_opts sc) || nodupb (map l_id (sc_local sc)))
+  && nodupb (map c_id (objs c0))
+  && forallb (fun c => N.ltb (c_uid c) (next_uid c0)) (objs c0)
+  && forallb (fun c => forallb (fun c' => negb (N.eqb (c_uid c) (c_uid c')) || Nat.eqb (c_id c) (c_id c')) (objs c0)) (objs c0)
+  && match sc_inv_ns sc, inv c0 with
+     | Some n, Some l => memn n (map c_id (objs c0)) || memn n l
+     | _, _ => true
+     end
+  && (negb (o_destroy (sc_opts sc)) || o_prune (sc_opts sc))
+  && wf_fin_b sc c0.
